@@ -138,9 +138,35 @@ Definition all_finite (l : list float) : bool := forallb is_finite l.
 Definition nonzero (x : float) : bool := PrimFloat.ltb 0x1.9p-46%float (PrimFloat.abs x).
 Definition count_nonzero (a : list float) : nat := length (filter nonzero a).
 
+(* The update step of the solver can leave a coefficient one rounding error outside its bound
+   (alpha_i = bound_j + diff rounds up).  The oracle therefore judges the coefficients clamped to their box and
+   requires, separately (bit 1), that clamping moved no coefficient by more than 2^-50 relative to the bound. *)
+Definition box_slack : Q := 1 # 1125899906842624.    (* 2^-50 *)
+Definition clampQ (lo hi x : Q) : Q := if Qltb x lo then lo else if Qltb hi x then hi else x.
+Definition near_box (lo hi x : Q) : bool :=
+  let d := (box_slack * (Qabs' lo + Qabs' hi))%Q in Qleb (lo - d) x && Qleb x (hi + d).
+Definition clamp_list (lo hi : list Q) (a : list Q) : list Q :=
+  map (fun t => clampQ (fst (fst t)) (snd (fst t)) (snd t)) (combine (combine lo hi) a).
+Definition near_list (lo hi : list Q) (a : list Q) : bool :=
+  forallb (fun t => near_box (fst (fst t)) (snd (fst t)) (snd t)) (combine (combine lo hi) a).
+Definition box_of (c : case) (r : Q) : list Q * list Q :=
+  let n := length (c_alpha c) in
+  match c_kind c with
+  | CSvc => (map (fun b : bool => if b then 0 else - f64_Q (c_par2 c)) (c_yb c),
+             map (fun b : bool => if b then f64_Q (c_par1 c) else 0) (c_yb c))
+  | NuSvc => (map (fun b : bool => if b then 0 else - r) (c_yb c), map (fun b : bool => if b then r else 0) (c_yb c))
+  | OneClass => (repeat 0 n, repeat 1 n)
+  | EpsSvr => (repeat (- f64_Q (c_par1 c)) n, repeat (f64_Q (c_par1 c)) n)
+  | NuSvr => (repeat (- f64_Q (c_par2 c)) n, repeat (f64_Q (c_par2 c)) n)
+  end%Q.
+
 Definition oracle_solution (c : case) : N :=
   let K := qm (c_K c) in
-  let a := qv (c_alpha c) in
+  let a0 := qv (c_alpha c) in
+  let cbq := match c_r c with Some r => f64_Q (PrimFloat.div 1%float r) | None => 0%Q end in
+  let '(blo, bhi) := box_of c cbq in
+  let a := clamp_list blo bhi a0 in
+  N.lor (flag (near_list blo bhi a0) 1) (
   let rho := f64_Q (c_rho c) in
   let e := f64_Q (c_tolk c) in
   let eeq := f64_Q (c_toleq c) in
@@ -179,7 +205,7 @@ Definition oracle_solution (c : case) : N :=
             flag (Qleb (- e) p && Qleb l1 (total + eeq * (1 + cq)) &&
                   (Qleb p e || Qleb (total - eeq * (1 + cq)) l1)) 2;
             flag (svr_kkt K (qv (c_yr c)) cq p a rho e) 4]
-  end.
+  end).
 
 Definition oracle_case (c : case) : N :=
   if c_panic c then 0%N (* reported by the harness with code 512 *) else
